@@ -166,7 +166,25 @@ func allWF(ps []rtcp.Packet) bool {
 // rtOracle: C02 on an `rt` line (Marshal list, Unmarshal, Marshal again)
 func rtOracle(args, res string, kindsOnly bool) string {
 	ps := getPackets(NewR(args))
-	if !allWF(ps) {
+	if kindsOnly {
+		// C07: whatever Marshal ACCEPTS must come back as the same Go type; exceptions: a caller-built RawPacket is
+		// dispatched by its own octets, a TWCC header is the caller's
+		if !hasPrefix(res, "ok ") {
+			return ""
+		}
+		for _, p := range ps {
+			switch v := p.(type) {
+			case *rtcp.RawPacket:
+				if !wfPacket(p) {
+					return ""
+				}
+			case *rtcp.TransportLayerCC:
+				if !twccConsistent(v) {
+					return ""
+				}
+			}
+		}
+	} else if !allWF(ps) {
 		return ""
 	}
 	if res == "err" {
@@ -176,10 +194,36 @@ func rtOracle(args, res string, kindsOnly bool) string {
 		return "round trip: " + clip(res, 40)
 	}
 	parts := splitSemi(res[3:])
+	if kindsOnly && (len(parts) < 2 || parts[1] == "err") {
+		// C07 is about dispatch, not about the decoder accepting the body: the output must split into one frame per
+		// packet, each carrying the (packet type, FMT) registered for the packet's Go type
+		b := unhexOr(parts[0])
+		off := 0
+		for i, p := range ps {
+			if off+4 > len(b) {
+				return fmt.Sprintf("Marshal output has no frame for packet %d", i)
+			}
+			l := (int(b[off+2])<<8 | int(b[off+3]) + 1) * 4
+			if off+l > len(b) || l != p.MarshalSize() {
+				if p.MarshalSize() > 262144 {
+					return fmt.Sprintf("frame %d does not span its packet (length field wraps: packet larger than 65536 words)", i)
+				}
+				return tagged(fmt.Sprintf("frame %d of the Marshal output does not span its packet: length field says %d octets, the packet has %d", i, l, p.MarshalSize()), p, tagXR)
+			}
+			if k := dispatchKind(b[off:]); k != kindName(p) && kindName(p) != "RAW" {
+				return tagged(fmt.Sprintf("packet %d: %s is emitted with the header of %s", i, kindName(p), k), p, tagSLI)
+			}
+			off += l
+		}
+		return ""
+	}
 	if len(parts) < 2 || parts[1] == "err" {
 		for _, p := range ps {
-			if deviationTag(p) == tagCCFB {
-				return tagged("own output not accepted by rtcp.Unmarshal", p, tagCCFB)
+			if t := deviationTag(p); t == tagCCFB || (kindsOnly && t == tagXR) {
+				return tagged("own output not accepted by rtcp.Unmarshal", p, tagCCFB, tagXR)
+			}
+			if kindsOnly && p.MarshalSize() > 262144 {
+				return "own output not accepted by rtcp.Unmarshal (length field wraps: packet larger than 65536 words)"
 			}
 		}
 		return "own output not accepted by rtcp.Unmarshal"
@@ -969,6 +1013,42 @@ func unitOracle(base, kind, args, res string) string {
 		if res != want {
 			return fmt.Sprintf("XR chunk %#04x: accessors give %s, RFC 3611 §4.1.1-4.1.3 give %s", c, clip(res, 30), want)
 		}
+	case "enc.TCHUNK":
+		c := getTwccChunk(NewR(args))
+		want := ""
+		switch v := c.(type) {
+		case *rtcp.RunLengthChunk:
+			if v.Type == 0 && v.PacketStatusSymbol < 4 && v.RunLength < 8192 {
+				w := v.PacketStatusSymbol<<13 | v.RunLength
+				want = okHex([]byte{byte(w >> 8), byte(w)})
+			}
+		case *rtcp.StatusVectorChunk:
+			if v.Type == 1 && v.SymbolSize == 0 && len(v.SymbolList) == 14 {
+				w := uint16(0x8000)
+				ok := true
+				for i, s := range v.SymbolList {
+					ok = ok && s < 2
+					w |= s & 1 << uint(13-i)
+				}
+				if ok {
+					want = okHex([]byte{byte(w >> 8), byte(w)})
+				}
+			}
+			if v.Type == 1 && v.SymbolSize == 1 && len(v.SymbolList) == 7 {
+				w := uint16(0xC000)
+				ok := true
+				for i, s := range v.SymbolList {
+					ok = ok && s < 4
+					w |= s & 3 << uint(2*(6-i))
+				}
+				if ok {
+					want = okHex([]byte{byte(w >> 8), byte(w)})
+				}
+			}
+		}
+		if want != "" && res != want {
+			return "status chunk encodes to " + clip(res, 20) + ", the draft's bit positions give " + want
+		}
 	case "dec.RLC":
 		b := NewR(args).H()
 		if len(b) != 2 || b[0]>>7 != 0 || !isOK {
@@ -1034,10 +1114,24 @@ func xrDecOracle(b []byte, tokens string) string {
 	if len(p.Reports) != len(kinds) {
 		return fmt.Sprintf("%d blocks on the wire, %d decoded", len(kinds), len(p.Reports))
 	}
+	off := 8
 	for i, blk := range p.Reports {
 		if xrKindOf(blk) != kinds[i] {
 			return fmt.Sprintf("block %d of wire type %d decodes to the Go type of block type %d", i, kinds[i], xrKindOf(blk))
 		}
+		ts := int(b[off+1])
+		_, omits, _, _ := xrParts(blk)
+		switch kinds[i] {
+		case 1, 2, 3:
+			if len(omits) == 1 && int(omits[0]) != ts&0x0f {
+				return fmt.Sprintf("block %d: thinning T decodes as %d, the low four bits of the type-specific octet %#x are %d", i, omits[0], ts, ts&0x0f)
+			}
+		case 6:
+			if len(omits) == 4 && (int(omits[0]) != ts>>7&1 || int(omits[1]) != ts>>6&1 || int(omits[2]) != ts>>5&1 || int(omits[3]) != ts>>3&3) {
+				return fmt.Sprintf("block %d: L/D/J/ToH decode as %v from type-specific octet %#x", i, omits, ts)
+			}
+		}
+		off += (int(binary.BigEndian.Uint16(b[off+2:])) + 1) * 4
 	}
 	return ""
 }
@@ -1073,4 +1167,30 @@ func specTypeCount(p rtcp.Packet) (pt, count int, ok bool) {
 		return 207, 0, true
 	}
 	return 0, 0, false
+}
+
+// ccfbDecOracle: the metric blocks of every report block as the library's own wire convention defines them
+// (num_reports field k > 0 stands for k+1 metric blocks, 0 for none): each block decodes on its own
+func ccfbDecOracle(b []byte, tokens string) string {
+	p := getBody(NewR(tokens), "CCFB").(*rtcp.CCFeedbackReport)
+	end := (int(binary.BigEndian.Uint16(b[2:])) + 1) * 4
+	if end > len(b) || end < 12 {
+		return ""
+	}
+	off := 8
+	for i, blk := range p.ReportBlocks {
+		if off+8 > end-4 {
+			return "" // blocks and timestamp overlap: not a valid encoding, the decoder is lenient; C04 speaks of valid ones
+		}
+		k := int(binary.BigEndian.Uint16(b[off+6:]))
+		n := 0
+		if k > 0 {
+			n = k + 1
+		}
+		if len(blk.MetricBlocks) != n {
+			return fmt.Sprintf("report block %d decodes with %d metric blocks, its num_reports field stands for %d", i, len(blk.MetricBlocks), n)
+		}
+		off += 8 + 2*(n+n%2)
+	}
+	return ""
 }
